@@ -221,6 +221,78 @@ def park_hook(late):
     return hook
 
 
+def build_h6(N):
+    """producer side of the finality -> commit hand-off on the REAL run_finality_loop (single role): whenever the loop goes to
+    sleep or returns, every finality publication it made has been followed by a commit_wait notification.  The candidate lock is a
+    ghost that declares a solver-chosen number of transactions ready per visit, so every batch shape (1, 2, 3, ... at once) occurs."""
+    import sched_common as sc
+
+    def b(tr):
+        H = hz.Harness(tr, "c17_h6")
+        S = H.local("S", "Scheduler<DB>")
+        sc.freeze_sched(H, S, N)
+        sc.init_sched(H, S, N)
+        sc.init_ctx(H, S, N)
+        sc.init_tx_tables(H, S, N, L=1)
+        H.cvar("ready_upto", "usize", shared=False); H.cvar("unnotified", "_Bool", shared=False); H.cvar("sleeps", "unsigned char", shared=False)
+        H.cvar("published", "usize", shared=False)
+        H.c("ready_upto = nondet_usize(); __CPROVER_assume(ready_upto <= %d); unnotified = 0; sleeps = 0; published = 0;" % N)
+        for t in range(4):
+            H.c(f"g_park_token[{t}] = 0;")
+        H.call("Scheduler::run_finality_loop", [H.ref(S)])
+        H.assert_("!unnotified", "when the finality loop returns, its last publication has been announced to the commit coordinator")
+        H.assert_(f"published == {N} || {H.lv(S, 'abort')}", "the loop only returns when the block is final or aborted")
+        H.cover("sleeps >= 1", "the loop slept at least once")
+        H.cover(f"published == {N}", "whole block finalised")
+        return H
+    return b
+
+
+def h6_cfg(N):
+    import sched_common as sc
+
+    def lfc(tr, c):
+        """lock_finality_candidate ghost: transactions below ready_upto are ready (guard on a thread-private dummy state)"""
+        import itermodels
+        from rtypes import parse_type
+        from models import REG
+        d = c.dest()
+        fidx = tr.as_scalar(c.args[1]).expr
+        lower = tr.as_scalar(c.args[2]).expr
+        tr.tmpn += 1
+        dm = tr.alloc(parse_type("Mutex<TxState>"), f"dummy_tx{tr.tmpn}", [], tr.cur.storage)
+        tr.emit(f"{tr.lv(Loc(dm.f('locked'), []))} = 0; {tr.lv(Loc(dm.f('data').f('status').discr, []))} = 4; "
+                f"{tr.lv(Loc(dm.f('data').f('incarnation'), []))} = 1; {tr.lv(Loc(dm.f('data').f('dependency').discr, []))} = 0;")
+        n = d.node
+        si, ni = n.vindex("Some"), n.vindex("None")
+        tup = n.variants[si][1].fields[0]
+        tr.emit(f"if ({fidx} < {N} && {fidx} < ready_upto) {{ {tr.lv(Loc(n.discr, d.idxs))} = {si}; {tr.lv(Loc(tup.fields[1], d.idxs))} = {lower};")
+        REG.lookup("Mutex::lock")(tr, itermodels.ICtx(tr, c.inst, "Mutex::lock", [VRef(dm, [])], Loc(tup.fields[0], d.idxs)))
+        tr.emit(f"}} else {{ {tr.lv(Loc(n.discr, d.idxs))} = {ni}; }}")
+
+    def publish(tr, c):
+        v = tr.as_scalar(c.args[1]).expr
+        tr.emit(f"S_scheduler_ctx_finality_0_v = {v}; published = {v}; unnotified = 1;")
+
+    def notify(tr, c):
+        slot = tr.deref(c.args[0])
+        # which slot?  commit_wait notifications announce finality publications; finality_wait ones are irrelevant here
+        tr.emit("unnotified = 0;" if "commit_wait" in slot.node.name else "/* finality_wait.notify */")
+
+    def wait(tr, c):
+        """the finality coordinator goes to sleep: everything it published must have been announced; the environment then makes more
+        transactions ready (or aborts the run)"""
+        tr.emit('__CPROVER_assert(!unnotified, "PROP every finality publication is followed by a commit notification before the finality loop sleeps (no lost hand-off)");')
+        tr.emit("sleeps++; __CPROVER_assume(sleeps <= 3);")
+        tr.emit(f"if (nondet_bool()) {{ S_abort_v = 1; }} else {{ usize nr = nondet_usize(); __CPROVER_assume(nr > ready_upto && nr <= {N}); ready_upto = nr; }}")
+    stubs = dict(sc.bene_true_stubs())
+    stubs.update({"Scheduler::lock_finality_candidate": lfc, "SchedulerContext::publish_finality": publish, "WaitSlot::notify": notify,
+                  "WaitSlot::wait_while": wait, "WaitSlot::register_current_thread": lambda tr, c: None})
+    c = sc.mv_cfg(N, L=1, stubs=stubs)
+    c["loops"] = {"Scheduler::run_finality_loop": {"*": (N + 6, "assert")}, "ExecutionFrontier::advance": {"*": (N + 2, "assume")}}
+    return c
+
+
 def specs(tier):
     done12 = "g_done[2] && g_done[3]"
     out = [
@@ -234,6 +306,9 @@ def specs(tier):
              unwind=5, timeout=600,
              desc="real commit-loop wait predicate on a real Scheduler || real cancel() || publish_finality+notify",
              bounds={"threads": 3, "wait_rounds": 3}),
+        Spec("h6_finality_announces_n3", build_h6(3), cfg=h6_cfg(3), unwind=11, timeout=600,
+             desc="producer side on the real run_finality_loop: every publication is followed by a commit notification before the loop sleeps or returns "
+                  "(every batch shape; ghost candidate lock, ghost wait = environment step)", bounds={"n": 3, "sleeps": 3}),
     ]
     if tier == "experimental":
         out.append(Spec("h4_finality_commit_n2", build_h4(2), cfg=h4_cfg(2, False), unwind=6, timeout=14000,
